@@ -88,7 +88,7 @@ Inductive ms_obs :=
 | MsOConn (t : ms_time)
 | MsOClosed (t : ms_time) (why : ms_err)
 | MsOTx (t : ms_time) (bytes : list N)
-| MsOTxLink (t : ms_time) (a : N)
+| MsOTxLink (t : ms_time) (a : N) (keepalive : bool)
 | MsOCb (t : ms_time) (a : N) (rt : ms_rtype) (n : N)
 | MsOStart (t : ms_time) (a : N) (k : ms_ttype) (fc : N) (seq : N)
 | MsOOk (t : ms_time) (a : N) (k : ms_ttype) (fc : N) (seq : N)
@@ -98,6 +98,10 @@ Inductive ms_obs :=
 | MsONow (t : ms_time)
 (* model-only observations (not printed by the engine, used by the theorems) *)
 | MsOUnsolIgnored (t : ms_time) (a : N)
+| MsORestartSeen (t : ms_time) (a : N)       (* a restart indication re-armed the start-up tasks *)
+| MsOCleared (t : ms_time) (a : N)           (* the clear-restart task reached Idle *)
+| MsOAssoc (t : ms_time) (a : N) (c : ms_acfg)  (* the association was registered *)
+| MsOLinkEnd (t : ms_time) (a : N)           (* a link status task ended *)
 | MsOSleep (t : ms_time) (until : option ms_time)
 | MsOStall (t : ms_time).
 
@@ -320,23 +324,24 @@ Definition ms_integrity_complete (a : ms_assoc) : bool :=
   negb (ms_cl_any (ms_c_integrity (ms_a_cfg a))) || ms_a_integrity_done a.
 
 (* on_restart_iin_observed *)
-Definition ms_on_restart (a : ms_assoc) : ms_assoc :=
+Definition ms_on_restart (now : ms_time) (a : ms_assoc) : ms_assoc * list ms_obs :=
   if ms_is_idle (ms_ts_clear (ms_a_auto a))
-  then ms_set_integrity_done (ms_set_auto a (ms_ts_on_restart (ms_a_auto a))) false
-  else a.
+  then (ms_set_integrity_done (ms_set_auto a (ms_ts_on_restart (ms_a_auto a))) false,
+        [MsORestartSeen now (ms_a_addr a)])
+  else (a, []).
 
 (* ms_process_iin *)
-Definition ms_process_iin (f : ms_rxfrag) (a : ms_assoc) : ms_assoc :=
-  let a1 := if ms_iin_restart f then ms_on_restart a else a in
+Definition ms_process_iin (now : ms_time) (f : ms_rxfrag) (a : ms_assoc) : ms_assoc * list ms_obs :=
+  let '(a1, seen) := if ms_iin_restart f then ms_on_restart now a else (a, []) in
   let a2 := if ms_iin_need_time f
             then ms_set_auto a1 (ms_with_time (ms_a_auto a1) (ms_demand (ms_ts_time (ms_a_auto a1)))) else a1 in
   let a3 := if ms_iin_overflow f && ms_c_ovf (ms_a_cfg a2)
             then ms_set_auto a2 (ms_with_integrity (ms_a_auto a2) (ms_demand (ms_ts_integrity (ms_a_auto a2))))
             else a2 in
   let a4 := ms_set_events a3 (ms_iin_events f) in
-  if ms_ev_any (N.land (ms_a_events a4) (ms_c_evscan (ms_a_cfg a4)))
-  then ms_set_auto a4 (ms_with_evscan (ms_a_auto a4) (ms_demand (ms_ts_evscan (ms_a_auto a4))))
-  else a4.
+  (if ms_ev_any (N.land (ms_a_events a4) (ms_c_evscan (ms_a_cfg a4)))
+   then ms_set_auto a4 (ms_with_evscan (ms_a_auto a4) (ms_demand (ms_ts_evscan (ms_a_auto a4))))
+   else a4, seen).
 
 (* handle_unsolicited_response + the confirmation decision of MasterSession::ms_handle_unsolicited;
    returns the new association, the observations and the confirm fragment if one is written *)
@@ -353,11 +358,12 @@ Definition ms_unsol_id_eqb (x y : ms_unsol_id) : bool :=
   && (if list_eq_dec N.eq_dec a7 b7 then true else false).
 
 Definition ms_handle_unsolicited (now : ms_time) (f : ms_rxfrag) (a0 : ms_assoc) : ms_assoc * list ms_obs :=
-  let a := ms_process_iin f a0 in
-  if negb (ms_integrity_complete a || negb (ms_has_objects f)) then (a, [MsOUnsolIgnored now (ms_a_addr a)])
+  let '(a, seen) := ms_process_iin now f a0 in
+  if negb (ms_integrity_complete a || negb (ms_has_objects f))
+  then (a, seen ++ [MsOUnsolIgnored now (ms_a_addr a)])
   else if negb (ms_r_ok f) then
     (* objects that cannot be parsed: not accepted, not confirmed (repair 588059f) *)
-    (a, [MsOUnsolIgnored now (ms_a_addr a)])
+    (a, seen ++ [MsOUnsolIgnored now (ms_a_addr a)])
   else
     let id := ms_unsol_id_of f in
     let dup := match ms_a_last_unsol a with Some old => ms_unsol_id_eqb old id | None => false end in
@@ -366,7 +372,7 @@ Definition ms_handle_unsolicited (now : ms_time) (f : ms_rxfrag) (a0 : ms_assoc)
                    else (if ms_r_ok f then [MsOCb now (ms_a_addr a) MsRtUnsol (ms_r_nvalues f)] else [])
                         ++ [MsOUnsol now (ms_a_addr a) false (ms_r_seq f)] in
     let confirm := if ms_r_con f then [MsOTx now (ms_confirm_unsol_bytes (ms_r_seq f))] else [] in
-    (a1, deliver ++ confirm).
+    (a1, seen ++ deliver ++ confirm).
 
 (* ---- requests as bytes ----------------------------------------------------------------------- *)
 
@@ -449,7 +455,7 @@ Definition ms_task_error (now : ms_time) (t : ms_task) (e : ms_err) (iin_restart
   match t with
   | MsTClearRestart =>
       if match e with MsEIin2 => negb iin_restart_set | _ => false end
-      then (ms_set_auto a (ms_with_clear ts MsAIdle), [])
+      then (ms_set_auto a (ms_with_clear ts MsAIdle), [MsOCleared now (ms_a_addr a)])
       else (ms_set_auto a (ms_with_clear ts (ms_auto_failure c now (ms_ts_clear ts))), [])
   | MsTEnableUnsol _ =>
       match e with
@@ -511,7 +517,8 @@ Definition ms_nonread_handle (now : ms_time) (systime : option Z) (t : ms_task) 
       if ms_iin_restart f
       then (ms_set_auto a (ms_with_clear (ms_a_auto a) (ms_auto_failure (ms_a_cfg a) now (ms_ts_clear (ms_a_auto a)))),
             [], MsHComplete)
-      else (ms_set_auto a (ms_with_clear (ms_a_auto a) MsAIdle), [], MsHComplete)
+      else (ms_set_auto a (ms_with_clear (ms_a_auto a) MsAIdle), [MsOCleared now (ms_a_addr a)],
+            MsHComplete)
   | MsTEmpty tok =>
       if ms_has_objects f then (a, [MsORes now tok (Some MsEUnexpectedHeaders)], MsHError MsEUnexpectedHeaders)
       else (a, [MsORes now tok None], MsHComplete)
